@@ -53,6 +53,36 @@ theorem limit_rejects_next (m : Nat) (f : Frame) (h : f.payload.length = m + 1) 
       Gen.bytesMinLen, Gen.bytesLongHdr, Gen.peekLongHdr]
     refine ⟨?_, ?_, ?_, ?_⟩ <;> repeat (first | rw [if_neg (by omega)] | rfl)
 
+/-- whatever bytes a peer sends — not only the output of an honest encoder — a frame the live decoder hands out never exceeds
+MAXMSGSIZE, it was cut out of the bytes received (payload ++ rest is a suffix of the input), and it consumed at least the
+header: the limit cannot be bypassed by any choice of flags, length field or fragmentation -/
+theorem any_decoded_frame_is_within_the_limit (m : Nat) (src : List UInt8) (f : Frame) (rest : List UInt8)
+    (h : decodeBuffer (m : Int) src = .frame f rest) :
+    f.payload.length ≤ m ∧ f.payload ++ rest <:+ src ∧ rest.length + f.payload.length + 2 ≤ src.length := by
+  cases src with
+  | nil => simp [decodeBuffer] at h
+  | cons fl tl =>
+    simp only [decodeBuffer] at h
+    have h2 : 2 ≤ (if isLong fl = true then Gen.bufferLongHdr else Gen.bufferShortHdr) := by
+      split <;> decide
+    generalize (if isLong fl = true then Gen.bufferLongHdr else Gen.bufferShortHdr) = hdr at h h2
+    by_cases c1 : tl.length + 1 < hdr
+    · simp [c1] at h
+    · by_cases c2 : exceeds (m : Int) (rawSize fl tl) = true
+      · simp [c1, c2] at h
+      · by_cases c3 : tl.length + 1 - hdr < rawSize fl tl
+        · simp [c1, c2, c3] at h
+        · simp only [c1, c2, c3, if_false] at h
+          injection h with hf hr
+          subst hf; subst hr
+          have hex' : ¬ (m < rawSize fl tl) := by
+            intro hlt; apply c2; simp [exceeds, hlt]
+          refine ⟨?_, ?_, ?_⟩
+          · simp only [mkFrame, List.length_take]; omega
+          · simp only [mkFrame, List.take_append_drop]
+            exact (List.drop_suffix _ _).trans (List.suffix_cons _ _)
+          · simp only [mkFrame, List.length_take, List.length_drop, List.length_cons]; omega
+
 /-- the decoders are total and never reach the `panic` outcome, whatever the bytes -/
 theorem decoders_never_panic (max : Int) (src : List UInt8) :
     decodeBuffer max src ≠ .panic ∧ decodeSlice max src ≠ .panic ∧ decodeBytes max src ≠ .panic := by
